@@ -14,7 +14,7 @@ from hypergraph.graph.validation import GraphConfigError  # noqa: E402
 
 FLAWS = ["unknown_target", "unknown_target_multi", "dup_producer", "dup_node", "bad_node_name", "bad_output_name", "bad_graph_name",
          "inconsistent_default", "wait_for_unknown", "edge_unknown_node", "edge_unknown_value", "type_mismatch", "missing_annotation",
-         "gate_self_target", "dup_producer_two_names", "dup_producer_two_gates", "bad_graph_output_name", "dup_output_in_node"]
+         "gate_self_target", "dup_producer_two_names", "dup_producer_two_gates", "bad_graph_output_name", "dup_output_in_node", "inconsistent_default_fed"]
 
 
 def typed_chain(rng: random.Random) -> dict:
@@ -166,6 +166,35 @@ def explicit_typed(rng: random.Random) -> tuple[list[dict], list[dict] | None, s
     return mk([first, second, consumer]), mk(bad), flaw
 
 
+def mapped_typed(rng: random.Random) -> tuple[list[dict], list[dict] | None, str]:
+    """strict_types around a MAPPING nested graph: the mapped input takes the list of items, a broadcast input takes the plain value, every
+    output is a list of per-item results."""
+    LI = {"g": "list", "a": ["int"]}
+    inner = {"name": "inner", "nodes": [{"name": "dbl", "kind": "fn", "params": [["x", None], ["f", None]], "dataOuts": ["y"], "body": {"b": "sum", "k": 0},
+                                         "ann": {"x": "int", "f": "int", "return": "int"}}], "bound": []}
+    ren_x = rng.choice(["x", "xs"])
+    ren_f = rng.choice(["f", "factor"])
+    mk = {"name": "mk", "kind": "fn", "params": [["s", None]], "dataOuts": [ren_x], "body": {"b": "const", "v": {"l": [1, 2]}}, "ann": {"s": "int", "return": LI}}
+    fac = {"name": "fac", "kind": "fn", "params": [["s", None]], "dataOuts": [ren_f], "body": {"b": "const", "v": 3}, "ann": {"s": "int", "return": "int"}}
+    w = {"name": "w", "kind": "graph", "inner": 0, "inRen": [[a, b] for a, b in (("x", ren_x), ("f", ren_f)) if a != b], "outRen": [], "mapOver": [ren_x],
+         "mapMode": rng.choice(["zip", "product"])}
+    use = {"name": "use", "kind": "fn", "params": [["y", None]], "dataOuts": ["z"], "body": {"b": "tag", "t": "use"}, "ann": {"y": LI, "return": "str"}}
+    good = [mk, fac, w, use]
+    bad = copy.deepcopy(good)
+    which = rng.choice(["item_into_mapped", "list_into_broadcast", "item_out_of_mapping"])
+    if which == "item_into_mapped":
+        bad[0]["ann"]["return"] = "int"
+        bad[0]["body"] = {"b": "const", "v": 1}
+    elif which == "list_into_broadcast":
+        bad[1]["ann"]["return"] = LI
+    else:
+        bad[3]["ann"]["y"] = "int"
+    rng.shuffle(good)
+    rng.shuffle(bad)
+    mk_prog = lambda ns: [copy.deepcopy(inner), {"name": "g1", "nodes": ns, "bound": [], "strict": True}]   # noqa: E731
+    return mk_prog(good), mk_prog(bad), "type_mismatch_mapping_" + which
+
+
 def _find(nodes: list[dict], name: str) -> dict | None:
     return next((n for n in nodes if n["name"] == name), None)
 
@@ -313,6 +342,26 @@ def inject(rng: random.Random, program: list[dict], flaw: str, gi: int) -> list[
             with_d[0][1] = {"d": "other-default"}
             if len({repr(q[1]) for q in prms}) == 1:
                 return None
+    elif flaw == "inconsistent_default_fed":
+        # the same, for a parameter that some node of the graph PRODUCES: its consumers' defaults are not dead (an entry point below the
+        # producer, or a cycle seed, makes the name an input again) and must agree all the same
+        cons2: dict[str, list] = {}
+        produced2 = {o for n in nodes for o in n.get("dataOuts", [])}
+        for n in fns:
+            ren = dict(n.get("inRen", []))
+            for prm in n.get("params", []):
+                cons2.setdefault(ren.get(prm[0], prm[0]), []).append(prm)
+        shared2 = [k for k, v in cons2.items() if len(v) >= 2 and k in produced2]
+        if not shared2:
+            return None
+        prms = cons2[rng.choice(shared2)]
+        if all(q[1] is None for q in prms):
+            prms[0][1] = {"d": 5}
+        else:
+            with_d = [q for q in prms if q[1] is not None]
+            with_d[0][1] = {"d": "other-default"}
+            if len({repr(q[1]) for q in prms}) == 1:
+                return None
     elif flaw == "wait_for_unknown":
         cands = [n for n in nodes if n["kind"] != "graph"]
         if not cands:
@@ -402,7 +451,7 @@ class C19(Prop):
         d1 = [e for _, e in tu.type_universe(1)] if tier == "thorough" else None
         i = 0
         # every dedicated family is visited several times per run, whatever the seed
-        forced = [n_way_gate, signal_branches, explicit_typed, signal_branches] * 4
+        forced = [n_way_gate, signal_branches, explicit_typed, mapped_typed, signal_branches] * 4
         while True:
             i += 1
             if i % 4 == 0:
@@ -417,9 +466,9 @@ class C19(Prop):
                 continue
             r = rng.random()
             if forced or r < 0.09:
-                fam = forced.pop() if forced else rng.choice([n_way_gate, signal_branches, signal_branches, explicit_typed])
+                fam = forced.pop() if forced else rng.choice([n_way_gate, signal_branches, signal_branches, explicit_typed, mapped_typed])
                 valid, flawed, flaw = fam(rng)
-                if rng.random() < 0.3:
+                if rng.random() < 0.3 and fam is not mapped_typed:
                     # the same inside a nested graph
                     wrap = lambda pr: [pr[0], {"name": "outer", "nodes": [{"name": "w", "kind": "graph", "inner": 0}], "bound": []}]   # noqa: E731
                     valid, flawed = wrap(valid), wrap(flawed)
@@ -448,7 +497,7 @@ class C19(Prop):
             order = rng.sample(FLAWS, len(FLAWS))
             if rng.random() < 0.6:
                 # flaw classes that need a particular structure are tried first (the generic ones apply almost everywhere)
-                rare = ["bad_graph_output_name", "dup_output_in_node", "dup_producer_two_gates", "dup_producer_two_names", "inconsistent_default", "type_mismatch", "missing_annotation",
+                rare = ["bad_graph_output_name", "inconsistent_default_fed", "dup_output_in_node", "dup_producer_two_gates", "dup_producer_two_names", "inconsistent_default", "type_mismatch", "missing_annotation",
                         "unknown_target_multi", "edge_unknown_node", "edge_unknown_value", "dup_producer", "gate_self_target", "unknown_target"]
                 rng.shuffle(rare)
                 order = rare + [f for f in order if f not in rare]
